@@ -403,16 +403,235 @@ pub fn check_route_accumulation(
     None
 }
 
+/// application-level case: the same accumulation, observed in the responses of an application
+/// built from files (speed table, heading table, turn-delay table with its own time unit through
+/// the configuration builders), optionally with the state features re-declared by the query
+#[derive(Clone, Debug, serde::Serialize, serde::Deserialize)]
+pub struct C03App {
+    pub search: SearchCase,
+    /// `state_features` of the query: units and initial values of distance and time
+    pub query_state: Option<StateSpec>,
+}
+
+#[derive(Clone, Debug, serde::Serialize, serde::Deserialize)]
+#[serde(untagged)]
+pub enum C03Case {
+    App(C03App),
+    Direct(SearchCase),
+}
+
+fn c03_app_strategy(max_n: usize) -> BoxedStrategy<C03App> {
+    (
+        c03_strategy(max_n, base_alg().boxed()),
+        proptest::option::weighted(0.5, state_strategy()),
+    )
+        .prop_map(|(mut search, query_state)| {
+            search.edge_oriented = false;
+            search.reverse = false;
+            let n = search.spec.net.n();
+            if search.o >= n {
+                search.o = 0;
+            }
+            if search.d.map(|d| d >= n || d == search.o).unwrap_or(true) {
+                search.d = Some((search.o + 1) % n);
+            }
+            search.query_k = None;
+            search.query_wf = None;
+            search.spec.allowed = None;
+            search.spec.restricted_turns = vec![];
+            // what a configuration file can say: leaf rates, no surcharges
+            search.spec.cost.edge_surcharge = None;
+            search.spec.cost.pair_surcharge = None;
+            search.spec.cost.r_dist = RateSpec::Raw;
+            search.spec.cost.r_time = RateSpec::Raw;
+            if !search.spec.has_time() {
+                search.spec.access = None;
+                search.spec.cost.w_time = 0.0;
+            }
+            if search.spec.cost.w_dist + search.spec.cost.w_time <= 0.0 {
+                search.spec.cost.w_dist = 1.0;
+            }
+            C03App { search, query_state }
+        })
+        .boxed()
+}
+
+fn check_app(c: &C03App) -> Outcome {
+    use crate::appbuild::*;
+    let mut o = Outcome::new();
+    o.label("through-application");
+    o.label_if(c.query_state.is_some(), "query-declares-state-features");
+    let sc = &c.search;
+    o.label_if(sc.spec.access.is_some(), "turn-delays");
+    let has_time = sc.spec.has_time();
+    let mut app = AppSpec::simple(sc.spec.net.clone());
+    app.trav = sc.spec.trav.clone();
+    app.access = sc.spec.access.clone();
+    app.state = Some(sc.spec.state.clone());
+    app.alg = sc.alg.clone();
+    app.w_dist = sc.spec.cost.w_dist;
+    app.w_time = sc.spec.cost.w_time;
+    app.output_plugins = vec![OutPlugin::Traversal {
+        route: Some("json".into()),
+        tree: None,
+    }];
+    let dir = crate::engine::CaseDir::new();
+    let (capp, _files) = match build_app(&app, &dir) {
+        Ok(a) => a,
+        Err(e) => {
+            o.fail("C03/app/build-error", json!({"error": e}));
+            return o;
+        }
+    };
+    // the state in force: the query's declaration, else what the traversal model contributes
+    // (a speed model keeps distance and time in its own units from zero), else the configuration
+    let state = match (&c.query_state, &sc.spec.trav) {
+        (Some(qs), _) => qs.clone(),
+        (None, TravSpec::Speed { dist_unit, time_unit, .. }) => StateSpec {
+            dist_unit: *dist_unit,
+            dist_init: 0.0,
+            time_unit: *time_unit,
+            time_init: 0.0,
+        },
+        // the distance model contributes no feature of its own: the configured one is in force
+        (None, TravSpec::Distance { .. }) => sc.spec.state.clone(),
+    };
+    let mut q = serde_json::Map::new();
+    q.insert("origin_vertex".into(), json!(sc.o));
+    q.insert("destination_vertex".into(), json!(sc.d.unwrap_or(0)));
+    if let Some(qs) = &c.query_state {
+        let mut f = serde_json::Map::new();
+        f.insert(
+            DIST.into(),
+            json!({"distance_unit": DIST_UNIT_NAMES[qs.dist_unit as usize % 5], "initial": qs.dist_init}),
+        );
+        if has_time {
+            f.insert(
+                TIME.into(),
+                json!({"time_unit": TIME_UNIT_NAMES[qs.time_unit as usize % 4], "initial": qs.time_init}),
+            );
+        }
+        q.insert("state_features".into(), serde_json::Value::Object(f));
+    }
+    let query = serde_json::Value::Object(q);
+    let resp = match capp.run(vec![query.clone()], Some(&json!({"parallelism": 1}))) {
+        Ok(r) if r.len() == 1 => r.into_iter().next().unwrap(),
+        Ok(r) => {
+            o.fail("C03/app/response-count", json!({"responses": r.len()}));
+            return o;
+        }
+        Err(e) => {
+            o.fail("C03/app/run-error", json!({"error": e.to_string()}));
+            return o;
+        }
+    };
+    if resp.get("error").is_some() {
+        o.label("app-error-response");
+        return o;
+    }
+    let route = match resp.get("route") {
+        Some(r) => r,
+        None => return o,
+    };
+    let path: Vec<serde_json::Value> = route.get("path").and_then(|p| p.as_array()).cloned().unwrap_or_default();
+    let ids: Vec<usize> = path.iter().filter_map(|e| e.get("edge_id").and_then(|x| x.as_u64()).map(|x| x as usize)).collect();
+    let g = sc.spec.net.ref_graph();
+    if ids.is_empty() || ids.len() != path.len() || ids.iter().any(|e| *e >= g.m()) {
+        return o;
+    }
+    // the state model the response declares: units and initial values are the ones in force
+    let sm = route.get("state_model").cloned().unwrap_or(json!({}));
+    let slot = |name: &str| sm.get(name).and_then(|f| f.get("index")).and_then(|i| i.as_u64()).map(|i| i as usize);
+    let decl = |name: &str, key: &str| sm.get(name).and_then(|f| f.get(key)).cloned().unwrap_or(serde_json::Value::Null);
+    let want_du = DIST_UNIT_NAMES[state.dist_unit as usize % 5];
+    let want_tu = TIME_UNIT_NAMES[state.time_unit as usize % 4];
+    let ctx0 = json!({"query": query, "declared_state_model": sm, "route": ids});
+    if decl(DIST, "distance_unit") != json!(want_du) || (has_time && decl(TIME, "time_unit") != json!(want_tu)) {
+        o.fail("C03/app/state-model-units-are-not-the-ones-in-force", json!({"ctx": ctx0, "expected": [want_du, want_tu]}));
+        return o;
+    }
+    let init_ok = |v: serde_json::Value, want: f64| v.as_f64().map(|x| (x - want).abs() <= 1e-9 * want.abs() + 1e-12).unwrap_or(false);
+    if !init_ok(decl(DIST, "initial"), state.dist_init) || (has_time && !init_ok(decl(TIME, "initial"), state.time_init)) {
+        o.fail("C03/app/state-model-initial-values-are-not-the-declared-ones", json!({"ctx": ctx0, "expected": [state.dist_init, state.time_init]}));
+        return o;
+    }
+    let (di, ti) = match (slot(DIST), if has_time { slot(TIME) } else { Some(0) }) {
+        (Some(d), Some(t)) => (d, t),
+        _ => {
+            o.fail("C03/app/state-model-without-slots", ctx0);
+            return o;
+        }
+    };
+    // reference accumulation in the units in force, from the initial values in force
+    let mut spec = sc.spec.clone();
+    spec.state = state.clone();
+    let ev = RefEval::new(&spec);
+    let mut dist = state.dist_init;
+    let mut time = state.time_init;
+    let mut prev: Option<usize> = None;
+    let mut nonzero_turn = false;
+    let mut cost_sum = 0.0;
+    for (k, e) in ids.iter().enumerate() {
+        dist += ev.d_dist(*e);
+        time += ev.d_time(*e);
+        if let Some(p) = prev {
+            let dt = ev.d_turn(p, *e);
+            if dt > 0.0 {
+                nonzero_turn = true;
+            }
+            time += dt;
+        }
+        prev = Some(*e);
+        let rs: Vec<f64> = path[k]
+            .get("result_state")
+            .and_then(|r| r.as_array())
+            .map(|a| a.iter().map(|x| x.as_f64().unwrap_or(f64::NAN)).collect())
+            .unwrap_or_default();
+        let (gd, gt) = (rs.get(di).copied().unwrap_or(f64::NAN), if has_time { rs.get(ti).copied().unwrap_or(f64::NAN) } else { 0.0 });
+        let ctx = json!({"ctx": ctx0, "position": k, "edge": e, "reported": {"distance": gd, "time": gt}, "expected": {"distance": dist, "time": time}, "units": [want_du, want_tu]});
+        if !near(gd, dist, 2e-3) {
+            o.fail("C03/app/distance-is-not-the-sum-of-edge-lengths", ctx);
+            return o;
+        }
+        if has_time && !near(gt, time, 2e-3) {
+            o.fail("C03/app/time-is-not-the-sum-of-edge-times-and-turn-delays", ctx);
+            return o;
+        }
+        cost_sum += path[k].get("access_cost").and_then(|x| x.as_f64()).unwrap_or(0.0)
+            + path[k].get("traversal_cost").and_then(|x| x.as_f64()).unwrap_or(0.0);
+    }
+    // the summary is the state after the last edge
+    if let Some(ts) = route.get("traversal_summary") {
+        let gd = ts.get(DIST).and_then(|x| x.as_f64());
+        let gt = ts.get(TIME).and_then(|x| x.as_f64());
+        if gd.map(|x| !near(x, dist, 2e-3)).unwrap_or(false) || (has_time && gt.map(|x| !near(x, time, 2e-3)).unwrap_or(false)) {
+            o.fail("C03/app/summary-is-not-the-state-after-the-last-edge", json!({"ctx": ctx0, "summary": ts, "expected": {"distance": dist, "time": time}}));
+            return o;
+        }
+    }
+    // (route.cost is the unweighted monetary value of the absolute final state, not the sum of
+    // the edges' search costs: the statement claims nothing about it and nothing is asserted)
+    let _ = cost_sum;
+    o.label_if(nonzero_turn, "non-zero-turn-delay-or-surcharge");
+    o.nontrivial = ids.len() >= 3 && (nonzero_turn || c.query_state.is_some());
+    o
+}
+
 impl Prop for C03 {
-    type Case = SearchCase;
+    type Case = C03Case;
     fn id(&self) -> &'static str {
         "C03"
     }
     fn rule(&self) -> String {
-        "generated: network x speed table x heading table x turn-delay table (8 classes, any time unit) x distance/time/speed unit configuration x non-negative weights with any rates (incl. offset, negative factors) x optional per-edge and per-turn surcharges x all algorithms (Dijkstra, A* any factor, single-via, Yen) x orientation x direction; every returned route is re-accumulated edge by edge with SI units and the independently computed turn angle. Exhaustive side table: all 360x360 heading pairs for the wrapped heading difference and all angles -180..180 for the turn-classifier laws. non-trivial = route with >= 3 edges containing a turn with a non-zero delay or surcharge".to_string()
+        "generated: network x speed table x heading table x turn-delay table (8 classes, any time unit) x distance/time/speed unit configuration x non-negative weights with any rates (incl. offset, negative factors) x optional per-edge and per-turn surcharges x all algorithms (Dijkstra, A* any factor, single-via, Yen) x orientation x direction; every returned route is re-accumulated edge by edge with SI units and the independently computed turn angle; one case in 15 goes through a real application built from files (speed, heading and turn-delay tables through the configuration builders, route rendered as per-edge JSON) with the state features optionally re-declared by the query (other units, non-zero initial values): declared units and initial values, per-edge states and the summary are judged in the response. Exhaustive side table: all 360x360 heading pairs for the wrapped heading difference and all angles -180..180 for the turn-classifier laws. non-trivial = route with >= 3 edges containing a turn with a non-zero delay or surcharge".to_string()
     }
-    fn strategy(&self, tier: Tier) -> BoxedStrategy<SearchCase> {
-        c03_strategy(tier.pick(12, 40), any_alg().boxed())
+    fn strategy(&self, tier: Tier) -> BoxedStrategy<C03Case> {
+        let n = tier.pick(12, 40);
+        prop_oneof![
+            14 => c03_strategy(n, any_alg().boxed()).prop_map(C03Case::Direct),
+            1 => c03_app_strategy(n.min(16)).prop_map(C03Case::App),
+        ]
+        .boxed()
     }
     fn cases(&self, tier: Tier) -> u32 {
         tier.pick(60_000, 2_000_000)
@@ -427,7 +646,11 @@ impl Prop for C03 {
             "edge-oriented routes: origin and destination edges are zero-cost markers (by design), except adjacent origin/destination edges which are reported as real traversals".into(),
         ]
     }
-    fn check(&self, case: &SearchCase) -> Outcome {
+    fn check(&self, case: &C03Case) -> Outcome {
+        let case = match case {
+            C03Case::App(a) => return check_app(a),
+            C03Case::Direct(c) => c,
+        };
         let mut o = Outcome::new();
         let laws = TURN_LAWS.get_or_init(turn_classifier_laws);
         if let Err((sig, detail)) = laws {
